@@ -17,7 +17,7 @@ from harness import ws
 from harness.core import MachineryError, run_tlc, setup_repo_imports
 
 INVS = ["WithinWindowMinMax", "NonNegative", "ConstantPreserved", "WindowOneIdentity", "CommutesWithDirShift", "EvenRejected"]
-NDIRS = {1: 4, 2: 4, 3: 4, 4: 4, 5: 6, 6: 3, 7: 4, 8: 5, 9: 4}
+NDIRS = {1: 4, 2: 4, 3: 4, 4: 4, 5: 6, 6: 3, 7: 4, 8: 5, 9: 4, 10: 4, 11: 4}
 
 
 def cfg(vals, nf, dsets, wins, emit=True):
@@ -37,7 +37,7 @@ def run(ctx):
     import wavespectra  # noqa
     from wavespectra.core.utils import smooth_spec
     jobs = []
-    for d in range(1, 10):
+    for d in range(1, 12):
         nd = NDIRS[d]
         if ctx.quick:
             nf, vals = (3, (0, 4)) if nd <= 4 else (2, (0, 4))
@@ -67,7 +67,7 @@ def run(ctx):
             vectors += r.vectors
     ctx.exhaustive = True
     ctx.note("lattice_vectors", len(vectors))
-    ctx.rule = ("TLC: 9 direction grids x spectra over a 2-3 symbol alphabet x windows {1,2,3,5}^2 (even ones must be rejected); every state "
+    ctx.rule = ("TLC: 11 direction grids x spectra over a 2-3 symbol alphabet x windows {1,2,3,5}^2 (even ones must be rejected); every state "
                 "replayed through spec.smooth and smooth_spec on a Dataset, plus leading-dimension and dyadic-spacing variants. "
                 "distinct_nontrivial = distinct non-constant (grid, spectrum, windows).")
     cap = 2500 if ctx.quick else 40000       # the replay is single-threaded python: thorough replays a seeded 40 000 of the states
